@@ -43,7 +43,17 @@ let z_of_i64 (x : int64) : z =
   if x = 0L then Z0 else if Int64.compare x 0L > 0 then Zpos (pos_of_int64 x) else Zneg (pos_of_int64 (Int64.neg x))
 let i64_of_z = function Z0 -> 0L | Zpos p -> int64_of_pos p | Zneg p -> Int64.neg (int64_of_pos p)
 
-let parse_u64 (s : string) : n = n_of_u64 (Int64.of_string ("0u" ^ s))
+(* naturals: decimal (up to 2^64-1) or 0x... hexadecimal of any width *)
+let n_of_hex (h : string) : n =
+  let bits = List.concat_map (fun c -> let v = (match c with '0'..'9' -> Char.code c - 48 | 'a'..'f' -> Char.code c - 87 | 'A'..'F' -> Char.code c - 55 | _ -> failwith "hex") in
+                                      [v land 8 <> 0; v land 4 <> 0; v land 2 <> 0; v land 1 <> 0]) (List.init (String.length h) (String.get h)) in
+  (* bits: most significant first *)
+  List.fold_left (fun acc b -> match acc, b with
+      | N0, false -> N0 | N0, true -> Npos XH
+      | Npos p, false -> Npos (XO p) | Npos p, true -> Npos (XI p)) N0 bits
+let parse_u64 (s : string) : n =
+  if String.length s > 2 && s.[0] = '0' && (s.[1] = 'x' || s.[1] = 'X') then n_of_hex (String.sub s 2 (String.length s - 2))
+  else n_of_u64 (Int64.of_string ("0u" ^ s))
 let parse_i64 (s : string) : z = z_of_i64 (Int64.of_string s)
 let show_u64 (x : n) : string = Printf.sprintf "%Lu" (u64_of_n x)
 let show_i64 (x : z) : string = Printf.sprintf "%Ld" (i64_of_z x)
